@@ -15,6 +15,7 @@ functions read `a` and `b` only; every theorem also states that the state's own 
 `.copied()`): it is the model's `AlgKind.difference` and is covered by the `difference` theorems.
 -/
 import Micromap.Proofs.Alg
+import Micromap.Proofs.StdIterB
 
 namespace Micromap.Props.C08
 open Micromap SetAlg Alg
@@ -517,5 +518,158 @@ example : disjointB exEnv.keq [1, 2] [2, 3] = false := by decide
 example : (match (algStart exA exB .union >>= algRunOut exEnv exA exB (exA.len + exB.len + 1)) exS with
     | .ok items _ => items == [(1, 0, 2), (1, 1, 3), (0, 0, 1)]
     | _ => false) = true := by decide
+
+end Micromap.Props.C08
+
+
+/-! ## std's provided `nth(k)` and `last()` on the four lazy set operations (`Model/StdIterB.lean`)
+
+`Difference`, `Intersection`, `Union`, `SymmetricDifference` (and `DifferenceRef`) do not override
+`nth` / `advance_by` / `last`; they DO override `fold`.  So `nth(k)` is core's `advance_by(k)` —
+`next` up to `k` times, stopping at the first `None` — followed by `next` (`algNth`), and `last()`
+is core's `fold(None, |_, x| Some(x))` running the crate's `fold` (`algLast` = the last item
+`algFold` visits).  Everything is stated relative to `algRest`, the list the iterator state still
+yields under repeated `next` (`fold_eq_next_after`, `algRunOut_exact`) — which `set_algebra_exact`,
+`difference_exact`, … identify with `diffL` / `interL` / `unionL` / `symmL` for a fresh iterator. -/
+
+namespace Micromap.Props.C08
+open Micromap SetAlg Alg Micromap.StdIterB
+
+section genericX
+variable {K V Q : Type} (E : Env K V Q)
+
+/-- `nth(k)` from any well-formed state, under ANY `==` and any injection: never `ub`, read-only,
+    unwinding only by an injected panic; the state stays well formed and of the same kind, the
+    bound `meas` does not grow, a returned item is a reference to a live slot of an operand. -/
+theorem algNth_safe {a b : Raw K V} {la lb : List (K × V)} (hra : Rep a la) (hrb : Rep b lb)
+    (k : Nat) (it : AlgIt) (hit : AlgInv la.length lb.length it) (s : St K V Q) :
+    SafeRO (algNth E a b k it) s (fun res => res.2.kind = it.kind ∧ AlgInv la.length lb.length res.2 ∧
+      meas res.2 ≤ meas it ∧ ∀ x, res.1 = some x → ItemOf la lb x) :=
+  ((algNth_quiet E hra hrb k it hit).mono (fun _ ⟨h1, h2, h3, h4, _⟩ => ⟨h1, h2, h3, h4⟩)).sat s
+
+/-- `last()` from any well-formed state, under ANY `==` and any injection. -/
+theorem algLast_safe {a b : Raw K V} {la lb : List (K × V)} (hra : Rep a la) (hrb : Rep b lb)
+    (it : AlgIt) (hit : AlgInv la.length lb.length it) (s : St K V Q) :
+    SafeRO (algLast E a b it) s (fun res => ∀ x, res = some x → ItemOf la lb x) :=
+  ((algLast_quiet E hra hrb it hit).mono (fun _ h => h.1)).sat s
+
+/-- `nth(k)` from ANY well-formed state (in particular every state reachable by `next`s and
+    `nth`s): it returns the `k`-th item of what repeated `next` would yield (`None` if there are
+    not that many) and leaves exactly the items after it; nothing is changed. -/
+theorem nth_exact (hE : E.Pure) {a b : Raw K V} {la lb : List (K × V)} (hra : Rep a la) (hrb : Rep b lb)
+    (k : Nat) (it : AlgIt) (hit : AlgInv la.length lb.length it) {s : St K V Q} (hw : Benign s.w) :
+    ∃ it' s', algNth E a b k it s = .ok ((algRest E.keq la lb it)[k]?, it') s' ∧ s'.r = s.r ∧
+      WRel s.w s'.w [] ∧ it'.kind = it.kind ∧ AlgInv la.length lb.length it' ∧
+      algRest E.keq la lb it' = (algRest E.keq la lb it).drop (k + 1) := by
+  obtain ⟨⟨o, it'⟩, s', h1, h2, h3, h4, h5, _, _, h8⟩ := (algNth_quiet E hra hrb k it hit).run hw
+  simp only at h4 h5 h8
+  rw [(h8 hE).1] at h1
+  exact ⟨it', s', h1, h2, h3, h4, h5, (h8 hE).2⟩
+
+/-- `nth(k)` is the last of `k+1` calls of `next`: the same item, and the same items left. -/
+theorem nth_eq_next (hE : E.Pure) {a b : Raw K V} {la lb : List (K × V)} (hra : Rep a la) (hrb : Rep b lb)
+    (k : Nat) (it : AlgIt) (hit : AlgInv la.length lb.length it) {s : St K V Q} (hw : Benign s.w) :
+    ∃ os it₁ s₁ it₂ s₂, nextN E a b (k + 1) it s = .ok (os, it₁) s₁ ∧
+      algNth E a b k it s = .ok ((os[k]?).join, it₂) s₂ ∧
+      algRest E.keq la lb it₂ = algRest E.keq la lb it₁ := by
+  obtain ⟨⟨os, it₁⟩, s₁, h1, _, _, _, _, _, h7⟩ := (nextN_quiet E hra hrb (k + 1) it hit).run hw
+  simp only at h7
+  obtain ⟨it₂, s₂, g1, _, _, _, _, g6⟩ := nth_exact E hE hra hrb k it hit hw
+  refine ⟨os, it₁, s₁, it₂, s₂, h1, ?_, by rw [g6, (h7 hE).2]⟩
+  rw [g1, (h7 hE).1]
+  simp
+
+/-- `last()` from ANY well-formed state: the last item of what repeated `next` (equivalently the
+    custom `fold`) would yield — `None` exactly when nothing is left; nothing is changed. -/
+theorem last_exact (hE : E.Pure) {a b : Raw K V} {la lb : List (K × V)} (hra : Rep a la) (hrb : Rep b lb)
+    (it : AlgIt) (hit : AlgInv la.length lb.length it) {s : St K V Q} (hw : Benign s.w) :
+    ∃ s', algLast E a b it s = .ok (algRest E.keq la lb it).getLast? s' ∧ s'.r = s.r ∧
+      WRel s.w s'.w [] ∧ ((algRest E.keq la lb it).getLast? = none ↔ algRest E.keq la lb it = []) := by
+  obtain ⟨o, s', h1, h2, h3, _, h5⟩ := (algLast_quiet E hra hrb it hit).run hw
+  rw [h5 hE] at h1
+  exact ⟨s', h1, h2, h3, List.getLast?_eq_none_iff⟩
+
+end genericX
+
+section setsX
+variable {K Q : Type} (E : Env K Unit Q)
+
+/-- on scripts without `nth` / `last` the extended interpreter (what the driver runs for scripts
+    with `t<k>` / `z`) IS `algScript` / `algOp`. -/
+theorem extended_alg_script_extends (dbg : Bool → K → String) (kind : AlgKind) (a b : Raw K Unit)
+    (cs : List IterCmd) (it : AlgIt) (forks : List AlgIt) :
+    algScriptX E dbg a b (cs.map .base) it forks = algScript E dbg a b cs it forks ∧
+    algOpX E dbg kind a b (cs.map .base) = algOp E dbg kind a b cs :=
+  ⟨algScriptX_base E dbg a b cs it forks, algOpX_base E dbg kind a b cs⟩
+
+/-- the composite operation with ANY extended script (any mixture of `next`, `nth`, `last`,
+    `size_hint`, `Debug`, `clone`, `count`, `fold`), any of the four kinds, under ANY `==` and any
+    injection: never `ub` (no loop bound is hit), read-only, unwinding only by an injected panic. -/
+theorem algOpX_safe {a b : Raw K Unit} {la lb : List (K × Unit)} (hra : Rep a la) (hrb : Rep b lb)
+    (dbg : Bool → K → String) (kind : AlgKind) (script : List IterCmdX) (s : St K Unit Q) :
+    SafeRO (algOpX E dbg kind a b script) s (fun _ => True) :=
+  (algOpX_quiet E hra hrb dbg kind script).sat s
+
+/-- `nth(k)` on a fresh `a.difference(b)` / `intersection` / `union` / `symmetric_difference`: the
+    `k`-th element of the full result (the list `set_algebra_exact` identifies with `diffL` /
+    `interL` / `unionL` / `symmL`), `None` beyond it; what a later `fold` or draining with `next`
+    yields is the full result without its first `k+1` elements. -/
+theorem nth_from_start (hE : E.Pure) {a b : Raw K Unit} {la lb : List (K × Unit)} (hra : Rep a la)
+    (hrb : Rep b lb) (kind : AlgKind) (k : Nat) {s : St K Unit Q} (hw : Benign s.w) :
+    ∃ it s₁ items s₂ s₃,
+      (algStart a b kind >>= algNth E a b k) s =
+        .ok ((algRest E.keq la lb (startIt la.length lb.length kind))[k]?, it) s₁ ∧
+      algFold E a b it s₁ = .ok items s₂ ∧
+      algRunOut E a b (a.len + b.len + 1) it s₁ = .ok items s₃ ∧
+      s₁.r = s.r ∧ s₂.r = s.r ∧ s₃.r = s.r ∧
+      items = (algRest E.keq la lb (startIt la.length lb.length kind)).drop (k + 1) := by
+  obtain ⟨it, s₁, h1, h2, h3, _, h5, h6⟩ :=
+    nth_exact E hE hra hrb k _ (startIt_inv la.length lb.length kind) hw
+  have hm : meas it ≤ meas (startIt la.length lb.length kind) := by
+    obtain ⟨_, _, e, _, _, _, _, m, _⟩ :=
+      (algNth_quiet E hra hrb k _ (startIt_inv la.length lb.length kind)).run hw
+    rw [h1] at e; cases e; exact m
+  have hf : meas it < a.len + b.len + 1 := by
+    have := startIt_meas la.length lb.length kind
+    rw [hra.1, hrb.1]; omega
+  obtain ⟨items, s₂, s₃, g1, g2, g3, g4, g5⟩ := fold_eq_next E hE hra hrb it h5 _ hf (h3.benign hw)
+  refine ⟨it, s₁, items, s₂, s₃, ?_, g1, g2, h2, g3.trans h2, g4.trans h2, by rw [g5, h6]⟩
+  simp only [bind_apply, algStart_eq hra hrb kind s, h1]
+
+/-- `last()` on a fresh iterator: the last element of the full result, `None` iff it is empty;
+    it is the last of the items draining with `next` yields. -/
+theorem last_from_start (hE : E.Pure) {a b : Raw K Unit} {la lb : List (K × Unit)} (hra : Rep a la)
+    (hrb : Rep b lb) (kind : AlgKind) {s : St K Unit Q} (hw : Benign s.w) :
+    ∃ items s₁ s₂,
+      (algStart a b kind >>= algRunOut E a b (a.len + b.len + 1)) s = .ok items s₁ ∧
+      (algStart a b kind >>= algLast E a b) s = .ok items.getLast? s₂ ∧
+      s₁.r = s.r ∧ s₂.r = s.r ∧ items = algRest E.keq la lb (startIt la.length lb.length kind) := by
+  have hf : meas (startIt la.length lb.length kind) < a.len + b.len + 1 := by
+    have := startIt_meas la.length lb.length kind
+    rw [hra.1, hrb.1]; omega
+  obtain ⟨s₁, h1, h2, _⟩ := algRunOut_exact E hE hra hrb _ (startIt_inv la.length lb.length kind) _ hf hw
+  obtain ⟨s₂, g1, g2, _⟩ := last_exact E hE hra hrb _ (startIt_inv la.length lb.length kind) hw
+  exact ⟨_, s₁, s₂, by simp only [bind_apply, algStart_eq hra hrb kind s, h1],
+    by simp only [bind_apply, algStart_eq hra hrb kind s, g1], h2, g2, rfl⟩
+
+end setsX
+
+/-! Non-vacuity: the model itself on the concrete operands `a = {1, 2}`, `b = {2, 3}`: `union`
+    yields `2, 3` (operand 1) and then `1` (operand 0, slot 0). -/
+
+example : (match (algStart exA exB .union >>= algNth exEnv exA exB 2) exS with
+    | .ok (o, _) _ => o == some (0, 0, 1) | _ => false) = true := by decide
+example : (match (algStart exA exB .union >>= algNth exEnv exA exB 3) exS with
+    | .ok (o, _) _ => o == none | _ => false) = true := by decide
+example : (match (algStart exA exB .union >>= algNth exEnv exA exB 0 >>= fun x => algNth exEnv exA exB 0 x.2) exS with
+    | .ok (o, _) _ => o == some (1, 1, 3) | _ => false) = true := by decide
+example : (match (algStart exA exB .difference >>= algLast exEnv exA exB) exS with
+    | .ok o _ => o == some (0, 0, 1) | _ => false) = true := by decide
+example : (match (algStart exA exB .intersection >>= algLast exEnv exA exB) exS with
+    | .ok o _ => o == some (0, 1, 2) | _ => false) = true := by decide
+/-- the script `nth(0); last; next` on `a.difference(b)` (= `[1]`): `nth(0)` takes the only element,
+    `last()` then finds nothing and ends the script. -/
+example : (match algOpX exEnv (fun _ k => toString k) .difference exA exB [.nth 0, .last, .base .next] exS with
+    | .ok [.some (.oref 0 0 (.key 1)), .none] _ => true | _ => false) = true := by decide
 
 end Micromap.Props.C08
